@@ -21,7 +21,7 @@ ASSUMPTIONS = ['merge model and $output model in harness/bv/model.py',
 
 # markers that can never be valid where they are injected (map value / list entry of a non-root container)
 PASSIVE_VALUES = ['$required', '$foo', '$mtach', '$output', '$match', '$value', '$invert', '$encode', '$decode', '$delete2', '$requiredx', '$r',
-                  '$encode:base64', '$output:false', '$repeat:3', '$required:x', '$foo:bar', '$delete.x', '$r-x', '$a b', '$match: {}', '$é', '$x\ny']
+                  '$encode:base64', '$output:false', '$repeat:3', '$required:x', '$foo:bar', '$delete.x', '$r-x', '$a b', '$match: {}', '$x\ny']
 ACTIVE_VALUES = ['$repeat', '$env:VERIF_UNSET_VARIABLE', '$merge:no.such.path', '$replace:no.such.path']
 PASSIVE_KEYS = [{'$mach:x': 1}, {'$foo bar': 1}, {'$output:false': 2}, {'$foo': 1}, {'$mtach': {'a': 1}}, {'$required': 1}, {'$invert': True, 'z': 1}, {'$output': 'yes'}, {'$output': 1}, {'$matchh': 1},
                 {'$delete': 1, 'zz': 2}]
